@@ -17,6 +17,12 @@ The token theorems quantify over every 24-byte RNG output (more generally every 
 that part of the statement is checked at run time only (several server starts: distinct tokens, length
 39, alphabet) and is labelled partial in checks/C18.json.
 
+Improvement round: the header map is a component of the request (`C18_outside_ignores_headers`,
+`C18_headers_only_acr`, `C18_other_header_irrelevant`, `C18_headers_only_preflight`), the wire level
+(`C18_wire`, `C18_wire_outside`: method token, request-target of any form read by the transcription of
+`http::Uri::from_shared`, HTTP version), the end-to-end statement from the RNG bytes to the response
+(`C18_end_to_end`), and histories over any number of connections (`C18_history_stateless`, `C18_history`).
+
 Only property theorems (names `C18_*`) and non-vacuity examples live in this file.
 -/
 open Server
@@ -230,9 +236,10 @@ theorem C18_headers_only_preflight (cfg : Cfg) (req : Req) (hs : Headers) (hm : 
 /-- Wire level, every form of request-target (origin-form, absolute-form, authority-form, `*`,
 malformed): if the answer to a request carries any `Access-Control-*` header, profile bytes or an API
 answer, or the connection is dropped, then the secret prefix stands literally in the request-target at
-the start of its path — the target begins with it, or is `http://<authority>` followed by it. Method
+the start of its path — the target begins with it, or is `<scheme>://<authority>` followed by it (any
+scheme: the `http` crate accepts `https://`, `ftp://`, `x+y://` … and hyper passes them on). Method
 token, HTTP version, headers and body are arbitrary. (Prefix = `"/"` + a non-empty token, as
-`start_server` builds it.) -/
+`start_server` builds it.) `pathOfTarget` is the transcription of `http::Uri::from_shared`. -/
 theorem C18_wire (cfg : Cfg) (w : WireReq) (hslash : cfg.pfx.head? = some '/') (hlen : 2 ≤ cfg.pfx.length)
     (h : (serveWire cfg w).exposes = true) : LiteralUnder cfg.pfx w.target := by
   unfold serveWire at h
@@ -369,11 +376,20 @@ private def wq (m t : String) (hs : Headers := []) (v11 : Bool := true) : WireRe
   { methodTok := m.toList, target := t.toList, http11 := v11, headers := hs, bodyUtf8 := true }
 
 example : C18_demoCfg.pfx.head? = some '/' ∧ 2 ≤ C18_demoCfg.pfx.length := by decide
--- exposed through an absolute-form target; `get` is not `GET`; token in the query or a header opens nothing
-example : (serveWire C18_demoCfg (wq "GET" "http://h.example:80/tok3n/profile.json")).exposes = true := by decide
+-- exposed through absolute-form targets of any scheme; `get` is not `GET`; token in the query or a header
+-- opens nothing
+example : ∀ t ∈ ["http://h.example:80/tok3n/profile.json", "https://h/tok3n/profile.json", "HtTp://u:p@h/tok3n/profile.json",
+      "ftp://[::1]:21/tok3n/profile.json", "x+y.z://h/tok3n/profile.json?q#f", "://h/tok3n/profile.json"],
+    (serveWire C18_demoCfg (wq "GET" t)).exposes = true := by decide
+-- targets the URI parser rejects never reach the service function
+example : ∀ t ∈ ["http:///tok3n/profile.json", "http://h%41/tok3n/profile.json", "http://h@/tok3n/profile.json",
+      "http://a:b:c/tok3n/profile.json", "h:80/tok3n/profile.json", "/tok3n/profile.json<", "/tok3n/`", "?x", "",
+      "http://[::1/tok3n/profile.json", "/tok3n/\x7f"],
+    serveWire C18_demoCfg (wq "GET" t) = .rejected := by decide
 example : (serveWire C18_demoCfg (wq "get" "/tok3n/profile.json")).exposes = true := by decide
 example : ∀ t ∈ ["/?/tok3n/profile.json", "/profile.json?token=tok3n", "http://tok3n/profile.json",
-      "http://h.example?/tok3n/profile.json", "tok3n", "*", "h.example/tok3n/profile.json"],
+      "http://h.example?/tok3n/profile.json", "tok3n", "*", "h.example/tok3n/profile.json", "https://tok3n/",
+      "https://h//tok3n/profile.json", "ftp://h/x/../tok3n/profile.json"],
     ∀ m ∈ ["GET", "POST", "OPTIONS", "get"],
       (serveWire C18_demoCfg (wq m t [("Authorization".toList, "Bearer tok3n".toList),
           ("Referer".toList, "http://127.0.0.1/tok3n/".toList),
